@@ -259,11 +259,12 @@ let o_specparse t = match Stdlib.Hashtbl.find_opt t_spec (key_of_text t) with
   | Some (L [A "ok"; key; txt]) -> Some { ReqParse.sp_key = nlist key; ReqParse.sp_text = str txt }
   | Some _ -> failwith "driver: spec table entry"
   | None -> raise (Miss (L [A "spec"; sstr t]))
-let o_url is_path t = match Stdlib.Hashtbl.find_opt t_url ((if is_path then "T" else "F") ^ ":" ^ key_of_text t) with
+let ukind_tag = function ReqParse.UParse -> "F" | ReqParse.UPath -> "P" | ReqParse.UFilePath -> "T"
+let o_url k t = match Stdlib.Hashtbl.find_opt t_url (ukind_tag k ^ ":" ^ key_of_text t) with
   | Some (A "err") -> None
   | Some (L [A "ok"; d]) -> Some (str d)
   | Some _ -> failwith "driver: url table entry"
-  | None -> raise (Miss (L [A "url"; bool_ is_path; sstr t]))
+  | None -> raise (Miss (L [A "url"; A (ukind_tag k); sstr t]))
 let o_getenv t = match Stdlib.Hashtbl.find_opt t_env (key_of_text t) with
   | Some (A "none") -> None
   | Some (L [A "ok"; v]) -> Some (str v)
